@@ -139,7 +139,9 @@ func (p *Pool) spawn() (*worker, error) {
 	// ulimit -v through sh so a runaway allocation kills only the worker
 	cmd := exec.Command("/bin/sh", "-c", fmt.Sprintf("ulimit -v %d; exec \"$0\" \"$@\"", mem), exe)
 	cmd.Args = append(cmd.Args, os.Args[1:]...)
-	cmd.Env = append(os.Environ(), envWorker+"=1", "GOMAXPROCS=2")
+	// asyncpreemptoff: goroutines are descheduled at ordinary safe points only. runtime.Stack(all) has crashed (nil dereference in
+	// the unwinder's own error path, go1.25.11) on a descheduled goroutine whose return pc it could not resolve.
+	cmd.Env = append(os.Environ(), envWorker+"=1", "GOMAXPROCS=2", "GODEBUG=asyncpreemptoff=1")
 	cmd.Env = append(cmd.Env, p.Env...)
 	cmd.ExtraFiles = []*os.File{tr, rw}
 	tb := &tailBuf{}
